@@ -22,13 +22,15 @@ pub fn phase(p: u32) {
     unsafe { libc::kill((0x7f00_0000u32 | p) as i32, 0) };
 }
 
-pub const SCENARIOS: [&str; 7] = ["node", "pubsub", "event", "reqres", "blackboard", "pubsub_shared", "reqres_shared"];
+pub const SCENARIOS: [&str; 10] = ["node", "pubsub", "pubsub_dyn", "event", "reqres", "blackboard", "pubsub_shared", "reqres_shared", "event_shared", "blackboard_shared"];
 
 pub fn phase_name(scenario: &str, p: u32) -> &'static str {
     let names: &[&'static str] = match scenario {
         "node" => &["-", "node_create", "node_drop"],
         "pubsub" | "pubsub_shared" => &["-", "node_create", "service_open_or_create", "publisher_create", "subscriber_create", "send", "receive", "subscriber_drop", "publisher_drop", "service_drop", "node_drop"],
-        "event" => &["-", "node_create", "service_open_or_create", "notifier_create", "listener_create", "notify", "wait", "listener_drop", "notifier_drop", "service_drop", "node_drop"],
+        "pubsub_dyn" => &["-", "node_create", "service_open_or_create", "publisher_create", "subscriber_create", "send", "receive", "grow_send", "grow_receive", "subscriber_drop", "publisher_drop", "service_drop", "node_drop"],
+        "blackboard_shared" => &["-", "node_create", "service_open", "writer_create", "reader_create", "update", "read", "ports_drop", "service_drop", "node_drop"],
+        "event" | "event_shared" => &["-", "node_create", "service_open_or_create", "notifier_create", "listener_create", "notify", "wait", "listener_drop", "notifier_drop", "service_drop", "node_drop"],
         "reqres" | "reqres_shared" => &["-", "node_create", "service_open_or_create", "server_create", "client_create", "request_send", "request_receive", "response_send", "response_receive", "ports_drop", "service_drop", "node_drop"],
         "blackboard" => &["-", "node_create", "service_create", "writer_create", "reader_create", "update", "read", "ports_drop", "service_drop", "node_drop"],
         _ => &["-"],
@@ -75,9 +77,69 @@ pub fn child(scenario: &str, root: &str, prefix: &str) {
             phase(10);
             drop(node);
         }
-        "event" => {
+        "pubsub_dyn" => {
+            use iceoryx2::prelude::AllocationStrategy;
             phase(2);
-            let svc = node.service_builder(&name).event().max_nodes(4).open_or_create().unwrap();
+            let svc = node.service_builder(&name).publish_subscribe::<[u8]>().history_size(1).subscriber_max_buffer_size(3).subscriber_max_borrowed_samples(3).max_publishers(2).max_subscribers(2).max_nodes(4).open_or_create().unwrap();
+            phase(3);
+            let p = svc.publisher_builder().initial_max_slice_len(8).allocation_strategy(AllocationStrategy::PowerOfTwo).create().unwrap();
+            phase(4);
+            let s = svc.subscriber_builder().create().unwrap();
+            phase(5);
+            let send = |len: usize, v: u8| {
+                let l = p.loan_slice_uninit(len).unwrap();
+                let l = l.write_from_fn(|_| v);
+                l.send().unwrap();
+            };
+            send(8, 1);
+            phase(6);
+            let x1 = s.receive().unwrap().unwrap();
+            phase(7);
+            // two growth steps while the subscriber still holds a sample of the first segment
+            send(100, 2);
+            send(3000, 3);
+            phase(8);
+            let x2 = s.receive().unwrap().unwrap();
+            let x3 = s.receive().unwrap().unwrap();
+            assert!(x1.iter().all(|b| *b == 1) && x2.iter().all(|b| *b == 2) && x3.iter().all(|b| *b == 3) && x3.len() == 3000);
+            phase(9);
+            drop(x1);
+            drop(x2);
+            drop(x3);
+            drop(s);
+            phase(10);
+            drop(p);
+            phase(11);
+            drop(svc);
+            phase(12);
+            drop(node);
+        }
+        "blackboard_shared" => {
+            phase(2);
+            let svc = node.service_builder(&name).blackboard_opener::<u64>().open().unwrap();
+            phase(3);
+            let w = svc.writer_builder().create().unwrap();
+            phase(4);
+            let r = svc.reader_builder().create().unwrap();
+            phase(5);
+            let h = w.entry::<u64>(&1).unwrap();
+            h.update_with_copy(101);
+            phase(6);
+            let rh = r.entry::<u64>(&1).unwrap();
+            let _ = rh.get();
+            phase(7);
+            drop(rh);
+            drop(h);
+            drop(r);
+            drop(w);
+            phase(8);
+            drop(svc);
+            phase(9);
+            drop(node);
+        }
+        "event" | "event_shared" => {
+            phase(2);
+            let svc = node.service_builder(&name).event().max_nodes(4).max_notifiers(2).max_listeners(2).open_or_create().unwrap();
             phase(3);
             let n = svc.notifier_builder().create().unwrap();
             phase(4);
@@ -123,7 +185,7 @@ pub fn child(scenario: &str, root: &str, prefix: &str) {
         }
         "blackboard" => {
             phase(2);
-            let svc = node.service_builder(&name).blackboard_creator::<u64>().add::<u64>(1, 100).add::<[u8; 40]>(2, [7; 40]).max_nodes(4).create().unwrap();
+            let svc = node.service_builder(&name).blackboard_creator::<u64>().add::<u64>(1, 100).add::<[u8; 40]>(2, [7; 40]).max_nodes(4).max_readers(2).create().unwrap();
             phase(3);
             let w = svc.writer_builder().create().unwrap();
             phase(4);
